@@ -36,7 +36,8 @@ class Parser(Emitter):
             formulaserror.forget_traceback(e)
 
         if isinstance(result, formulaserror.XLError):
-            error = str(result)
+            # the host may hand in error objects of its own: report a canonical code for them too
+            error = str(formulaserror.from_message(result))
             result = None
         return {'result': result, 'error': error}
 
